@@ -4,8 +4,10 @@
    the group table is Gen.GroupsTable, regenerated from pkg/scan/range.go on every run.
    These theorems are about the code WITH the fix of defect D3 (ParseIPNet refuses non-IPv4 nets). *)
 From Coq Require Import ZArith List Bool.
-From SX Require Import Base.Bytes Model.RangeIter Model.IPNet Model.Exclude Model.Targets Gen.GroupsTable
-  Proofs.RangeIterProofs Proofs.IPNetProofs Proofs.StagesProofs Proofs.TargetsTable.
+From SX Require Import Base.Bytes Model.RangeIter Model.IPNet Model.Exclude Model.Targets Model.FileTargets Model.TargetWiring
+  Gen.GroupsTable Gen.TargetWiring
+  Proofs.RangeIterProofs Proofs.IPNetProofs Proofs.StagesProofs Proofs.TargetsProofs Proofs.CoverageProofs Proofs.WiringProofs
+  Proofs.ConfinementProofs Proofs.TargetsTable.
 Import ListNotations.
 Open Scope Z_scope.
 
@@ -75,6 +77,32 @@ Theorem C02_excluded_meaning : forall nets a, addr_ok a ->
   (excluded nets a = true <-> exists n, In n nets /\ contains n a = true).
 Proof. exact excluded_spec. Qed.
 
+(* an exclusion file is accepted only if every entry is an IPv4 host or block (blank and comment lines
+   aside): the networks inserted are IPv4 nets, and one entry that is not refuses the whole file *)
+Theorem C02_exclude_file_ipv4 : forall cidr_of addr_of lines nets,
+  (forall s, lib_cidr_ok (cidr_of s) = true) -> (forall s, lib_addr_ok (addr_of s) = true) ->
+  parse_exclude cidr_of addr_of lines = Some nets -> Forall (fun n => is_ipv4_net n = true) nets.
+Proof. intros cidr_of addr_of lines nets H1 H2. exact (parse_exclude_ipv4 cidr_of addr_of H1 H2 lines nets). Qed.
+
+(* through whole commands: for EVERY command of the generated wiring table, every option setting and every
+   valid subnet specification, all draws - every probe the scan makes is addressed inside the net and to an
+   address the exclusion list does not cover *)
+Theorem C02_all_commands_confined : forall cmd, In cmd commands -> forall k f inp n evs a p,
+  class_of cmd = Some k -> valid_spec k f inp n -> f_file f = false ->
+  run_command cyclic_groups chunk_size empty_runs_once cmd f inp = Some evs ->
+  In (a, p) (probes evs) ->
+  contains n a = true /\ kept (class_stages k f inp) a = true.
+Proof.
+  intros cmd Hcmd k f inp n evs a p Hc V Ef Hrun Hin.
+  destruct (command_coverage cyclic_groups groups_ok chunk_size (eq_refl : 0 < chunk_size) cmd k f inp n Hc V)
+    as (evs' & Hrun' & Hperm & _).
+  change (run_command cyclic_groups chunk_size empty_runs_once cmd f inp = Some evs') in Hrun'.
+  rewrite Hrun in Hrun'. inversion Hrun'; subst evs'.
+  destruct (vs_dst _ _ _ _ V Ef) as [_ [pl Hn]].
+  apply (spec_denote_subnet_inside k f inp n pl a p Ef Hn).
+  eapply Permutation.Permutation_in; [exact Hperm|exact Hin].
+Qed.
+
 (* non-vacuity *)
 Example C02_ex_accept : parse_ipnet (Some ([192;168;0;0], [255;255;255;0])) None = POk ([192;168;0;0], [255;255;255;0]).
 Proof. reflexivity. Qed.
@@ -110,3 +138,5 @@ Print Assumptions C02_generator_exact.
 Print Assumptions C02_excluded_never_probed.
 Print Assumptions C02_exclusion_exact.
 Print Assumptions C02_excluded_meaning.
+Print Assumptions C02_exclude_file_ipv4.
+Print Assumptions C02_all_commands_confined.
